@@ -57,6 +57,13 @@ CLAIMED = {
         "technique": "Rocq proof by induction over option lists, registry histories and middleware lists + differential run of the runtime/generated client vs model",
         "coq_targets": ["Properties/C19.vo", "Corr/RestRuntimeCorr.vo"],
     },
+    "C16": {
+        "text": "Theorems over all multi-file package skeletons (unbounded), all four subcommands, all flag records / the literal argument vectors -type=L, -file=f, -type=*, and all iteration orders of Go's maps: the literal model of ParseCommonFlags/ListTypes/MakeData/confirmTypes/getGoFile/findCmdLine/fileName/Generate produces exactly the files (names and types per file, in order) the declarative reading of the property demands, named after the declaring source file, and lists them in the message; a missing/wrong-kind name yields a diagnostic and no file; the code's filters coincide with declarative eligibility. Guard: distinct identifier type names, and the input classes of five open findings, each refuted by a Coq witness and replayed against /repo. Tied to /repo by running the built binary on random skeleton packages × command lines and comparing exit class, diagnostics, written files with their types (marker methods) and the message list inside Coq.",
+        "design_ref": "DESIGN.md section 8, C16; section 13",
+        "note": COMMON_NOTE + "The package is abstracted to a skeleton (what testNode/ListTypes/go-types inspect); template execution, goimports and MergeSources are not modelled (observed through marker methods); flag.Parse and the findCmdLine regexp are re-implemented by hand. Five open findings (K_star_no_generate_line, K_enum_missing_silent, K_star_sep_file, K_local_type_listed, K_lower_collision) delimit the guard.",
+        "technique": "Rocq refinement proof (literal walkers/filters/naming ⊑ declarative spec, permutation oracles for map iteration) + differential run of the shoot binary on generated multi-file packages vs the model, compared in Coq",
+        "coq_targets": ["Properties/C16.vo", "Corr/CliCorr.vo"],
+    },
 }
 
 NOT_CLAIMED = {}
